@@ -102,6 +102,13 @@ def gen_mesh_spec(rng, dim=None, with_orphans=True):
     for t in types:
         k = CELLS[t] or kpoly
         nc = rng.randint(1, 4)
+        if t == 7 and nc >= 2 and rng.random() < 0.5:
+            # polygons with differing corner counts: a ragged connectivity (an object array of index arrays)
+            rows = np.empty(nc, dtype=object)
+            for i in range(nc):
+                rows[i] = np.array([rng.randrange(used) for _ in range(rng.randint(3, 6))], dtype="i8")
+            cells.append((t, rows))
+            continue
         cells.append((t, np.array([[rng.randrange(used) for _ in range(k)] for _ in range(nc)], dtype=rng.choice(["i8", "i4", "i8"]))))
     return {"dim": dim, "points": pts, "cells": cells}
 
@@ -119,6 +126,8 @@ def gen_field_specs(rng, dim, k=None):
 
 def ser(a):
     a = np.asarray(a)
+    if a.dtype == object:
+        return ["ragged", [len(a)], [[int(x) for x in r] for r in a]]
     return [str(a.dtype), list(a.shape), a.reshape(-1).tolist()]
 
 
@@ -127,6 +136,11 @@ LAYOUTS = ["C", "C", "F", "strided", "rev", "T", "bswap"]
 
 def unser(x):
     """the array of a description [dtype, shape, values(, memory layout)]: equal values, different strides"""
+    if x[0] == "ragged":
+        a = np.empty(len(x[2]), dtype=object)
+        for i, r in enumerate(x[2]):
+            a[i] = np.array(r, dtype="i8")
+        return a
     a = np.array(x[2], dtype=x[0]).reshape(x[1])
     lay = x[3] if len(x) > 3 else "C"
     if lay == "F":
@@ -379,6 +393,8 @@ def file_expr(path, snap, got):
         return None
     if any(t not in per for per in snap["cf"].values() for t in snap["cells"]) or any(len(c) == 0 for c in snap["cells"].values()):
         return None
+    if any(np.asarray(c).dtype == object for c in snap["cells"].values()):
+        return None           # ragged polygons: outside the `rectangular` hypothesis of the whole-file theorem (content still checked)
 
     def darr(vt, nc, text):
         return f"{{| da_type := {VT[vt]}; da_nc := {nc}; da_text := {G.hx(text)} |}}"
